@@ -378,6 +378,18 @@ impl C37 {
                         .map_err(|e| herr(&e))?;
                     Ok(())
                 }
+                ["hbase", k] => {
+                    let k: u64 = k.parse().map_err(|_| "bad-op")?;
+                    let h = self.hist.as_mut().ok_or("bad-op")?;
+                    let bp = BasePath::new(0, format!("{}-base{k}", h.uri), Some(format!("b{k}")), false);
+                    match rt.block_on(Arc::new(h.ds.clone()).add_bases(vec![bp], None)) {
+                        Ok(ds) => h.ds = ds,
+                        // registering the same base twice is a conflict; the table is unchanged
+                        Err(Error::InvalidInput { .. }) => {}
+                        Err(e) => return Err(herr(&e)),
+                    }
+                    Ok(())
+                }
                 _ => Err("bad-op".into()),
             }
         })();
@@ -956,7 +968,8 @@ impl Prop for C37 {
                                     let hi = lo + r.below(5);
                                     l.push(format!("hdelete {lo} {hi}"));
                                 }
-                                7..=8 => l.push(format!("hconfig {}", 1 + r.below(3))),
+                                7 => l.push(format!("hconfig {}", 1 + r.below(3))),
+                                8 => l.push(format!("h{} {}", if r.chance(1, 2) { "base" } else { "config" }, 1 + r.below(3))),
                                 9..=10 => l.push(format!("hunconfig {}", 1 + r.below(3))),
                                 _ => {
                                     let n = 1 + r.below(4);
@@ -990,7 +1003,7 @@ impl Prop for C37 {
     }
 
     fn rule(&self) -> String {
-        "cases 0-20 enumerate: constants, every variant, number pairs 0..5 x 0..5, every flag word < 2*FLAG_UNKNOWN, every single bit / all-ones / known|unknown word, every version name in three casings plus near misses, apply_feature_flags on every fragment list of length <= 2 over (deletion file, row id meta) x config x base paths x both switches; the rest is seeded: random u64 flag words, mutated version strings (incl. non-ASCII look-alikes), manifests built through Manifest::new / update_config / BasePath::new with mostly uniform file versions (1 case in 8 malformed: unknown number pairs, mixtures, bad labels), check_storage_version and the check+apply commit gate on them, and table histories (create/append/delete/overwrite/config) through Dataset on memory://. A case is non-trivial if at least one line is a recognised operation.".into()
+        "cases 0-20 enumerate: constants, every variant, number pairs 0..5 x 0..5, every flag word < 2*FLAG_UNKNOWN, every single bit / all-ones / known|unknown word, every version name in three casings plus near misses, apply_feature_flags on every fragment list of length <= 2 over (deletion file, row id meta) x config x base paths x both switches; the rest is seeded: random u64 flag words, mutated version strings (incl. non-ASCII look-alikes), manifests built through Manifest::new / update_config / BasePath::new with mostly uniform file versions (1 case in 8 malformed: unknown number pairs, mixtures, bad labels), check_storage_version and the check+apply commit gate on them, and table histories (create/append/delete/overwrite/config/add_bases) through Dataset on memory://. A case is non-trivial if at least one line is a recognised operation.".into()
     }
 }
 
